@@ -10,7 +10,7 @@ RULE = (
     'before and after suspension points, anywhere in the handler list and the tree (parent, awaited child, '
     'fire-and-forget child, forwarded bus); exception classes builtin, custom with payload, TimeoutError raised by the '
     'handler itself (plain, and from its own inner asyncio.wait_for), CancelledError coming out of a handler that awaited a '
-    'cancelled future; handlers returning an exception object; actors await events and call the result accessors with '
+    'cancelled future, chained exceptions (raise X from err); handlers returning an exception object; actors await events and call the result accessors with '
     'both raise_if_any settings. Oracle: the raising handler result is an error holding the very object raised; every '
     'other expected delivery happened once; all accepted events complete; await does not raise; accessors re-raise '
     'the first recorded error object iff raise_if_any. Non-trivial = >= 1 raising handler next to >= 1 other handler '
@@ -18,7 +18,7 @@ RULE = (
 )
 ASSUMPTIONS = ['virtual time', 'no firing timeouts (event_timeout=None), no stop()']
 
-P = Profile(raises=0.45, raise_kinds=['VE', 'custom', 'KE', 'RT', 'TO', 'TO', 'ITO', 'ITO', 'CE'], rets=['idx', 'idx', 'none', 'str', 'excobj'], sync=0.35, fwd=0.3, par=0.15, maxdepth=[1, 2, 3], wild=0.2, actor_ops=['disp', 'disp', 'dispany', 'sleep', 'await', 'acc', 'acc', 'yield'], max_actor_ops=6)
+P = Profile(raises=0.45, raise_kinds=['VE', 'custom', 'KE', 'RT', 'TO', 'TO', 'ITO', 'ITO', 'CE', 'chain', 'chain'], rets=['idx', 'idx', 'none', 'str', 'excobj'], sync=0.35, fwd=0.3, par=0.15, maxdepth=[1, 2, 3], wild=0.2, actor_ops=['disp', 'disp', 'dispany', 'sleep', 'await', 'acc', 'acc', 'yield'], max_actor_ops=6)
 
 
 def budget(tier):
